@@ -176,7 +176,7 @@ def Pcs (app : App) (want : Nat) (fu : FetchUnit) (D : List Word) (slack : Nat) 
     h + D.length + slack ≤ app.instrs.length + 2 ∧
     (fu.co = .none → h + D.length ≤ app.instrs.length) ∧
     (fu.co = .wait → h + D.length ≤ app.instrs.length + 1) ∧
-    (fu.complete = true → NoJmp app → app.instrs.length ≤ h + D.length)
+    (fu.complete = true → app.instrs.length ≤ h + D.length)
 
 /-- **the front of the pipeline** holds the instructions `n0, n0+1, …` in order: the runners are consecutive from `n0`,
 the pcs on the decode bus and the fetch unit's pc continue them -/
